@@ -331,8 +331,13 @@ class Monitor:
         self.notes.extend(j["notes"])
         self.n_cases += j["n_cases"]
         for k, v in j["extra"].items():
-            if isinstance(v, (int, float)) and isinstance(self._extra.get(k), (int, float)):
-                self._extra[k] += v
+            if isinstance(v, bool) or isinstance(self._extra.get(k), bool):
+                self._extra[k] = bool(self._extra.get(k, v)) and bool(v) if k in self._extra else v
+            elif isinstance(v, (int, float)) and isinstance(self._extra.get(k), (int, float)):
+                if k.startswith(("max", "largest")) or k.endswith(("_max", "_total")):
+                    self._extra[k] = max(self._extra[k], v)
+                else:
+                    self._extra[k] += v
             elif isinstance(v, list) and isinstance(self._extra.get(k), list):
                 self._extra[k] = (self._extra[k] + v)[:50]
             else:
